@@ -90,11 +90,15 @@ def r171(ctx, api):
                 for t in s.targets:
                     if isinstance(t, ast.Attribute) and t.attr == 'dtypes' and norm(t.value) == 'self':
                         stores.append('%s.%s' % (m.name, q))
-    ctx.ob('R17.1', 'api.ParquetFile.dtypes:stored-only-by-_dtypes', stores == ['api.ParquetFile._dtypes'], str(stores), 'fastparquet/api.py:1')
+    # what the handle reports is what the default read allocates with: self.dtypes is stored once, where the handle is set
+    # up, from the very function the allocation calls (no second computation, no per-call overwrite)
+    ctx.ob('R17.1', 'api.ParquetFile.dtypes:stored-only-when-the-handle-is-set-up', stores == ['api.ParquetFile._set_attrs'], str(stores), 'fastparquet/api.py:1')
+    sa = api.func('ParquetFile._set_attrs')
+    st = [x for x in walk_no_nested(sa) if isinstance(x, ast.Assign) and norm(x.targets[0]) == 'self.dtypes']
+    ctx.ob('R17.1', 'api._set_attrs:reported-dtypes-are-the-default-answer-of-_dtypes',
+           len(st) == 1 and norm(st[0].value) == 'self._dtypes()', norm(st[0]) if st else '', api.loc(sa))
     d = api.func('ParquetFile._dtypes')
-    s = src(d)
-    ctx.ob('R17.1', 'api._dtypes:returns-what-it-stores', 'self.dtypes = dtype' in s and norm(d.body[-1]) == 'return dtype'
-           and 'dtype = self._base_dtype.copy()' in s, 'the reported mapping and the returned mapping are the same object', api.loc(d))
+    ctx.ob('R17.1', 'api._dtypes:returns-the-mapping-it-computed', norm(d.body[-1]) == 'return dtype', norm(d.body[-1]), api.loc(d))
     ctx.ob('R17.1', 'api._dtypes:categories-and-partitions-reported-as-category',
            "for field in categories: dtype[field] = 'category'" in norm(ast.Module(body=d.body, type_ignores=[])).replace('\n', ' ')
            or ("dtype[field] = 'category'" in s and "dtype[cat] = 'category'" in s), '', api.loc(d))
